@@ -1,5 +1,6 @@
 import Restli.Proofs.LazyMap
 import Restli.Proofs.LazyMapRefine
+import Restli.Gen.Tables
 /-! # C18 — the lazy map publishes each key's value once under every interleaving
 
 Property theorems only (helper lemmas: `Proofs/LazyMap.lean`; the linearizability theorem's
@@ -250,5 +251,28 @@ example : step (run (initL sampleProgs) [0, 1]) 1 = none ∧
 -- and a state where a present value is overwritten by a Store (hypotheses of clause 5)
 example : (run (initL sampleProgs) [0, 0, 0, 3]).cell 1 = .val 10 ∧
     (run (initL sampleProgs) [0, 0, 0, 3, 3]).cell 1 = .val 30 := by decide
+
+/-! ## The steps of the source are the steps of the model
+
+The atomic actions of `lazymap.go`, in source order, each with the `yield` that announces it
+(regenerated from `/repo` on every run by `tools/extract`, group `c18-lazymap-steps`). The model
+has exactly these transitions (`Pc`): `start` of a `LoadOrStore` / `Load`, `wait`, `compute`,
+`rawStore`, `signal`, `finalStore`; and the harness can force an interleaving only at the
+announced points. An atomic action added, removed, replaced by another, or left without a
+`yield` of its own (label `<unannounced>`) changes the list, and this statement — for both module
+copies — no longer checks. -/
+def modelSteps : List (String × String × String) :=
+  [("LoadOrStore", "los.LoadOrStore", "sync.Map.LoadOrStore"),  -- Pc.start (op .loadOrStore)
+   ("LoadOrStore", "los.Wait", "WaitGroup.Wait"),               -- Pc.wait
+   ("LoadOrStore", "los.compute", "call f"),                    -- Pc.compute
+   ("LoadOrStore", "los.Store", "sync.Map.Store"),              -- Pc.rawStore
+   ("LoadOrStore", "los.Done", "WaitGroup.Done"),               -- Pc.signal
+   ("Load", "load.Load", "sync.Map.Load"),                      -- Pc.start (op .load)
+   ("Load", "load.Wait", "WaitGroup.Wait"),                     -- Pc.wait
+   ("Store", "store.Store", "sync.Map.Store")]                  -- Pc.finalStore
+
+theorem c18_source_steps_are_the_models :
+    Restli.Gen.lazymapSteps = modelSteps ∧ Restli.GenRoot.lazymapSteps = modelSteps := by
+  constructor <;> decide
 
 end Restli.LazyMap
